@@ -346,12 +346,19 @@ func (l *c15Limiter) admit(assert string) bool {
 	return l.n[assert] <= 40
 }
 
+// c15Tally counts a coverage class without counting a comparison (env.ok does both).
+func c15Tally(env *Env, class string) {
+	env.mu.Lock()
+	env.classes[class]++
+	env.mu.Unlock()
+}
+
 func c15Replay(env *Env) {
 	cases := loadCases[c15Case](env.cases)
 	lim := &c15Limiter{n: map[string]int{}}
 	parallel(len(cases), 0, func(ci int) {
 		c := cases[ci]
-		env.ok("cases.replayed")
+		c15Tally(env, "cases.replayed")
 		q := c15Join(c.Q)
 		refs := make([][]byte, len(c.Refs))
 		for i, r := range c.Refs {
@@ -368,7 +375,7 @@ func c15Replay(env *Env) {
 		fail := func(assert, detail string) {
 			bad = true
 			if !lim.admit(assert) {
-				env.ok("suppressed." + assert)
+				c15Tally(env, "suppressed." + assert)
 				return
 			}
 			env.fail(assert, cls, fmt.Sprintf("%s: query %s references %v taxa %v", detail, q, c15Strs(refs), c.Taxa), c)
@@ -418,7 +425,7 @@ func c15Replay(env *Env) {
 					fail("C15.closest.best_set", fmt.Sprintf("%s.FindClosests (%s) answers references %v at distance %d; the references at that distance are %v (0-based)", fn, ord, a.best, a.maxe, want))
 				default:
 					env.ok("closest." + fn + "." + ord)
-					env.ok("closest.cls." + c.Cls)
+					c15Tally(env, "closest.cls." + c.Cls)
 				}
 			}
 			// the index of every reference
@@ -458,9 +465,9 @@ func c15Replay(env *Env) {
 				}
 				if okEntries && okLookup {
 					env.ok("index." + ord)
-					env.ok("index.cls." + c.Cls)
+					c15Tally(env, "index.cls." + c.Cls)
 					if len(pairs) > 1 {
-						env.ok("index.several_entries")
+						c15Tally(env, "index.several_entries")
 					}
 				}
 			}
@@ -483,12 +490,12 @@ func c15Replay(env *Env) {
 			default:
 				env.ok("assign." + ord)
 				if c.Assigned != 1 {
-					env.ok("assign.below_root")
+					c15Tally(env, "assign.below_root")
 				}
 			}
 		}
 		if !bad {
-			env.ok("case." + c.Suite)
+			c15Tally(env, "case." + c.Suite)
 			if ci%997 == 0 {
 				env.sample(map[string]any{"query": string(q), "references": c15Strs(refs), "taxa": c.Taxa, "distance": c.D, "best": c.Best, "assigned": c.Assigned, "cls": c.Cls})
 			}
